@@ -324,12 +324,12 @@ Qed.
 
 (* a block read with omit_content: nothing is handed to the template engine, nothing is
    produced, the context is untouched — for every sheet, position, context, policy *)
-Theorem skipped_not_evaluated : forall pe pn rows fuel bt pos cx log log' r,
-  parse_block pe pn rows fuel bt true pos cx log = (log', r) ->
+Theorem skipped_not_evaluated : forall pe pn sc em tl rows fuel bt pos cx log log' r,
+  parse_block pe pn sc em tl rows fuel bt true pos cx log = (log', r) ->
   (exists ev, log' = log ++ ev /\ Forall untemplated_row ev)
   /\ (forall p cx', r = Ok (p, cx') -> cx' = cx).
 Proof.
-  intros pe pn rows fuel. induction fuel as [|f IH]; intros bt pos cx log log' r H; cbn [parse_block] in H.
+  intros pe pn sc em tl rows fuel. induction fuel as [|f IH]; intros bt pos cx log log' r H; cbn [parse_block] in H.
   - inversion H; subst. split; [exists []; rewrite app_nil_r; split; [reflexivity|constructor]|discriminate].
   - destruct (nth_error rows pos) as [row|] eqn:En.
     2:{ destruct bt; inversion H; subst; (split; [exists []; rewrite app_nil_r; split; [reflexivity|constructor]|]);
@@ -344,7 +344,7 @@ Proof.
     + cbn [orb] in H.
       assert (Hstep : forall bt2 log2 r2 logm,
                  (exists ev, logm = log ++ ev /\ Forall untemplated_row ev) ->
-                 parse_block pe pn rows f bt2 true (S pos) cx logm = (log2, r2) ->
+                 parse_block pe pn sc em tl rows f bt2 true (S pos) cx logm = (log2, r2) ->
                  (exists ev, log2 = log ++ ev /\ Forall untemplated_row ev)
                  /\ (forall p cx', r2 = Ok (p, cx') -> cx' = cx)).
       { intros bt2 log2 r2 logm [ev0 [-> Hev0]] Hp. destruct (IH _ _ _ _ _ _ Hp) as [[ev [-> Hev]] Hc].
@@ -352,7 +352,7 @@ Proof.
         apply Forall_app. split; assumption. }
       destruct (rk row) eqn:Ek.
       * apply (Hstep _ _ _ _ Hbase H).
-      * destruct (parse_block pe pn rows f BFor true (S pos) cx (log ++ [EvRow pos false])) as [log3 r3] eqn:E3.
+      * destruct (parse_block pe pn sc em tl rows f BFor true (S pos) cx (log ++ [EvRow pos false])) as [log3 r3] eqn:E3.
         destruct (Hstep _ _ _ _ Hbase E3) as [Hl3 Hc3].
         destruct r3 as [[p3 cx3]|e3].
         -- rewrite (Hc3 _ _ eq_refl) in H.
@@ -361,7 +361,7 @@ Proof.
            exists (ev3 ++ ev). rewrite app_assoc. split; [reflexivity|]. apply Forall_app. split; assumption.
         -- inversion H; subst. split; [exact Hl3|discriminate].
       * apply (Hstep _ _ _ _ Hbase H).
-      * destruct (parse_block pe pn rows f BBlock true (S pos) cx (log ++ [EvRow pos false])) as [log3 r3] eqn:E3.
+      * destruct (parse_block pe pn sc em tl rows f BBlock true (S pos) cx (log ++ [EvRow pos false])) as [log3 r3] eqn:E3.
         destruct (Hstep _ _ _ _ Hbase E3) as [Hl3 Hc3].
         destruct r3 as [[p3 cx3]|e3].
         -- rewrite (Hc3 _ _ eq_refl) in H.
@@ -374,22 +374,22 @@ Proof.
 Qed.
 
 (* ... and what happens there does not depend on the undefined policy or on the context *)
-Theorem skipped_policy_independent : forall pe pn pe' pn' rows fuel bt pos cx log,
-  fst (parse_block pe pn rows fuel bt true pos cx log) = fst (parse_block pe' pn' rows fuel bt true pos cx log)
-  /\ snd (parse_block pe pn rows fuel bt true pos cx log) = snd (parse_block pe' pn' rows fuel bt true pos cx log).
+Theorem skipped_policy_independent : forall pe pn pe' pn' sc em tl rows fuel bt pos cx log,
+  fst (parse_block pe pn sc em tl rows fuel bt true pos cx log) = fst (parse_block pe' pn' sc em tl rows fuel bt true pos cx log)
+  /\ snd (parse_block pe pn sc em tl rows fuel bt true pos cx log) = snd (parse_block pe' pn' sc em tl rows fuel bt true pos cx log).
 Proof.
-  intros pe pn pe' pn' rows fuel.
+  intros pe pn pe' pn' sc em tl rows fuel.
   assert (Hi : forall r log, inst_row pe pn None r log = inst_row pe' pn' None r log).
   { intros r log. unfold inst_row, log_render, parse_m. cbn [renders andb]. rewrite !parse_as_string_none. cbn [to_include].
     destruct (rk r); reflexivity. }
-  assert (H : forall bt pos cx log, parse_block pe pn rows fuel bt true pos cx log = parse_block pe' pn' rows fuel bt true pos cx log).
+  assert (H : forall bt pos cx log, parse_block pe pn sc em tl rows fuel bt true pos cx log = parse_block pe' pn' sc em tl rows fuel bt true pos cx log).
   { induction fuel as [|f IH]; intros bt pos cx log; cbn [parse_block]; [reflexivity|].
     destruct (nth_error rows pos); [|reflexivity]. cbn [inst_row_incl]. rewrite Hi.
     destruct (inst_row pe' pn' None s (log ++ [EvRow pos (negb true)])) as [l2 [[inc mv]|e]]; [|reflexivity].
     destruct (end_check bt (rk s)); try reflexivity. cbn [orb].
     destruct (rk s); try apply IH.
-    - rewrite IH. destruct (parse_block pe' pn' rows f BFor true (S pos) cx l2) as [l3 [[p c3]|e]]; [apply IH|reflexivity].
-    - rewrite IH. destruct (parse_block pe' pn' rows f BBlock true (S pos) cx l2) as [l3 [[p c3]|e]]; [apply IH|reflexivity]. }
+    - rewrite IH. destruct (parse_block pe' pn' sc em tl rows f BFor true (S pos) cx l2) as [l3 [[p c3]|e]]; [apply IH|reflexivity].
+    - rewrite IH. destruct (parse_block pe' pn' sc em tl rows f BBlock true (S pos) cx l2) as [l3 [[p c3]|e]]; [apply IH|reflexivity]. }
   intros. rewrite H. split; reflexivity.
 Qed.
 
